@@ -13,6 +13,7 @@ import (
 	"strconv"
 	"strings"
 
+	"github.com/ontio/ontology/common/log"
 	"verif/harness/internal/c31pool"
 	"verif/harness/internal/hx"
 )
@@ -25,7 +26,10 @@ var classSeen = map[string]int{}
 
 const perClassCap = 15
 
-func initWorld() { world = c31pool.NewWorld(7) }
+func initWorld() {
+	log.InitLog(log.MaxLevelLog) // no writer: the vbft handlers log every message
+	world = c31pool.NewWorld(7)
+}
 
 func pu32(s string) (uint32, bool) {
 	v, err := strconv.ParseUint(s, 10, 32)
@@ -821,6 +825,8 @@ func main() {
 		// honest round
 		"H 4 1 - P,0,1,0;P,2,1,0;P,3,1,0;P,1,1,0;E,0,1,0;E,2,1,0;E,3,1,0;DA,0;DA,1;DA,2;K,0;K,2;K,3;DA,3;DA,4;DA,5;S,0;S,1;S,2;S,3",
 		"H 4 1 3 -",
+		// Props/C34.lean non-vacuity example of the implementation model (three honest nodes seal block 1.0)
+		"H 4 1 3 P,0,1,0;P,1,1,0;P,2,1,0;E,0,1,0;E,2,1,0;D,0,2;D,1,0;D,0,1;D,1,1;K,0;K,2;D,2,1;D,3,1;D,2,2;D,3,0;S,0;S,1;S,2",
 		// the empty/full flag is outside the partial theorem (Props/C34.lean C34_partial_does_not_cover_forEmpty is the pool-level
 		// form; this is a stable global history of the known class)
 		"H 4 1 1 P,0,0,0;P,0,3,0;P,2,0,0;P,3,0,0;P,3,3,0;E,3,0,1;E,2,3,0;E,0,3,1;DA,0;DA,1;DA,2;K,0;K,3;K,2;DA,3;DA,4;DA,5;S,0;S,2;S,3",
@@ -829,7 +835,7 @@ func main() {
 		// real Servers: Byzantine leader equivocates, each version backed by one commit with forged EndorsersSig
 		"R 4 1 3 3,0 P,0,3,0;P,1,3,1;X,3,fc,3,0,0,3,0;X,3,fc,3,1,0,3,1",
 		// real Servers: every signature genuine, honest 2nd proposer 0 also endorses Byzantine leader 3's block
-		"R 4 1 3 3,0 P,0,0,0;P,2,0,0;P,1,3,0;T,2,0;P,0,3,0;DO,0,1;X,3,e,0,0,0,3,2;T,2,4",
+		"R 4 1 3 3,0 P,0,0,0;P,2,0,0;P,1,3,0;T,2,0;P,0,3,0;DO,0,1;X,3,c,0,0,0,3,2",
 		// real Servers: honest round
 		"R 4 1 - 1,2 P,0,1,0;P,1,1,0;P,2,1,0;P,3,1,0;DX,0;DX,1;DX,2;DX,3;DX,0;DX,1;DX,2;DX,3",
 	}
